@@ -25,7 +25,9 @@ pub(crate) fn is_tuple_fields(fs: &[Field]) -> bool {
     true
 }
 
-static KEYWORDS: [&str; 64] = [
+static KEYWORDS: [&str; 65] = [
+    // the factory's own parameter: a definition of that name would redeclare it
+    "IDL",
     "abstract",
     "arguments",
     "await",
